@@ -728,3 +728,33 @@ Proof.
   rewrite dispatch_c.
   apply (pmap_ok _ _ (fun e0 => (e0, @nil posting_spans))). exact E.
 Qed.
+
+(* ---- every directive ---- *)
+Theorem directive_roundtrip : forall (w : str -> nat) fuel e k,
+  wf_entry e = true -> (match e with STxn _ => False | _ => True end) ->
+  (length (print_entry w e ++ 10%N :: k) <= fuel)%nat ->
+  exists e', parse_ledger_entry fuel (print_entry w e ++ 10 :: k) = POk (e', []) (10 :: k) /\ same_entry e e'.
+Proof.
+  intros w fuel [t | s | key value | | path | name ds | name ds] k Hwf Hnt Hlen;
+    cbn [wf_entry print_entry] in *.
+  - contradiction.
+  - exists (SComment s). split; [| reflexivity]. apply top_comment_roundtrip; assumption.
+  - exists (SApplyTag key value). split; [| reflexivity].
+    apply andb_true_iff in Hwf. destruct Hwf as [Hk Hv].
+    rewrite <- !app_assoc. exact (apply_tag_roundtrip fuel key value k Hk Hv).
+  - exists SEndApplyTag. split; [| reflexivity]. rewrite <- !app_assoc. exact (end_apply_tag_roundtrip fuel k).
+  - exists (SInclude path). split; [| reflexivity]. rewrite <- !app_assoc.
+    exact (include_roundtrip fuel path k Hwf).
+  - exists (SAccount name ds). split; [| reflexivity].
+    rewrite !andb_true_iff in Hwf. destruct Hwf as [[Hn Hds] Hadj].
+    rewrite <- !app_assoc in Hlen |- *.
+    apply account_roundtrip; try assumption.
+    rewrite !app_length in Hlen. rewrite app_length. lia.
+  - rewrite !andb_true_iff in Hwf. destruct Hwf as [[Hn Hds] Hadj].
+    rewrite <- !app_assoc in Hlen |- *.
+    destruct (commodity_roundtrip fuel name ds k Hn Hds Hadj) as (ds' & E & S).
+    { rewrite !app_length in Hlen. rewrite app_length. lia. }
+    exists (SCommodity name ds'). split; [exact E |]. split; [reflexivity | exact S].
+Qed.
+
+Print Assumptions directive_roundtrip.
